@@ -8,16 +8,16 @@ import common as C
 def main():
     C.ensure_cfg()
     C.ensure_generated()
-    ok, out = C.lake(["JsonC", "driver"])
-    if not ok:
-        print(out[-4000:])
-        print("setup: lake build failed")
-        return 1
     man = json.load(open(os.path.join(C.VERIF, "MANIFEST.json")))
     for chk in man["checks"]:
         pid = chk["property_id"].lower()
         try:
             P = importlib.import_module("props." + pid)
+            ok, out = C.lake(["driver-" + P.COMPONENT, "JsonC.Props." + pid.upper()])
+            if not ok:
+                print(out[-4000:])
+                print("setup: lake build failed for " + pid)
+                return 1
             if hasattr(P, "prepare"):
                 P.prepare(C, "quick")
             C.build_harness(P.HARNESS, getattr(P, "VARIANT", "asan"), getattr(P, "EXTRA_FLAGS", ()), getattr(P, "WRAPS", ()))
